@@ -193,7 +193,7 @@ def pandas_index_component(ix):
         dtype=_PD_DTYPE[ix["dtype"]] if ix.get("dtype") else None,
         checks=[build_check(c, ix.get("dtype")) for c in ix.get("checks", [])],
         nullable=ix.get("nullable", False), unique=ix.get("unique", False), coerce=ix.get("coerce", False),
-        name=ix.get("name"),
+        name=ix.get("name"), report_duplicates=ix.get("report_duplicates", "all"),
     )
 
 
